@@ -636,6 +636,13 @@ def adversarial(rng):
     i0 = np.arange(n, dtype=float)
     mk("collinear points", False, pts=np.asarray(base["zero"]) + i0[:, None] * np.asarray(base["a"])[None, :] / 1.0)
     mk("min_match larger than the number of points", True, min_match=10 * n + 5)
+    # "accept every frame": min_match 0 and 1 with nothing (or a single peak) to match -- still the invalid match, never an error
+    half = np.asarray(base["zero"]) + (np.array([[0.5, 0.5], [1.5, -0.5], [-1.5, 2.5], [0.5, -1.5]]) @ np.array([base["a"], base["b"]]))
+    for mm_ in (0, 1):
+        mk(f"empty input, min_match={mm_}", True, pts=np.zeros((0, 2)), elev=np.zeros(0), min_match=mm_)
+        mk(f"all weights below min_weight, min_match={mm_}", True, elev=np.full(n, 0.01), min_match=mm_)
+        mk(f"all peaks half a cell off, min_match={mm_}", True, pts=half, elev=np.ones(len(half)), kind=np.ones(len(half), dtype=int),
+           min_match=mm_)
     mk("negative tolerance", True, tol=-1.0)
     mk("zero tolerance", True, tol=0.0)
     return out
